@@ -1362,5 +1362,6 @@ pub mod verif_hooks {
     pub use crate::core::delaunay_triangulation::verif_hooks_dt as dt;
     pub use crate::core::triangulation_data_structure::verif_hooks_tds as tds;
     pub use crate::core::util::deduplication::verif_hooks_dedup as dedup;
+    pub use crate::geometry::robust_predicates::verif_hooks_robust as robust;
     pub use crate::topology::traits::global_topology_model::verif_hooks_topology as topology;
 }
